@@ -74,6 +74,83 @@ separately.) -/
 def Resp.wf (resp : Resp) (l : Nat) : Prop :=
   resp.n < 0 ∨ (resp.n = resp.data.length ∧ resp.data.length ≤ l)
 
+/-! ### Limited readers stacked on a limited reader
+
+`LimitReader(LimitReader(src, n), m)`: the reader the outer one wraps is itself a
+`limitedReader`, so its answer to a buffer of length `l` is the inner one's `Read` on that
+buffer, and the inner one's state moves exactly when the outer one called it. -/
+
+/-- The error of an inner `Read` as the outer reader sees it: an error code that is `0`
+exactly for `nil` (the outer only passes it on).  Injective, so the outer's
+`.under code` still says which error the inner one returned. -/
+def RErr.code : RErr → Nat
+  | .nil => 0
+  | .under c => 4 * c + 1
+  | .limit n => 4 * n + 2
+  | .badLen (.ofNat k) => 4 * k + 3
+  | .badLen (.negSucc k) => 4 * k + 4
+
+/-- What an inner `Read` returned, as the answer of a wrapped reader. -/
+def ReadOut.toResp (o : ReadOut) : Resp := { n := o.n, data := o.data, err := o.err.code }
+
+/-- The wrapped-reader behaviour "a `limitedReader` in state `inner` over a source that
+answers `s`". -/
+def LR.asReader (inner : LR) (s : Nat → Resp) : Nat → Resp :=
+  fun l => (inner.read l s).2.toResp
+
+/-- State of a stack: the outer reader and the inner one it wraps. -/
+structure Stack where
+  outer : LR
+  inner : LR
+  deriving Repr, DecidableEq
+
+/-- Result of one `Read` on the outer reader: what the outer returned, and what the inner one
+returned to it (`none` when the outer did not call it). -/
+structure StackOut where
+  out : ReadOut
+  inner : Option ReadOut
+  deriving Repr, DecidableEq
+
+/-- One `Read(p)` on the outer reader, `len(p) = plen`; `s` is the source's answer if the
+inner reader calls it. -/
+def Stack.read (st : Stack) (plen : Nat) (s : Nat → Resp) : Stack × StackOut :=
+  let r := st.outer.read plen (st.inner.asReader s)
+  match r.2.requested with
+  | none => ({ outer := r.1, inner := st.inner }, { out := r.2, inner := none })
+  | some l =>
+    ({ outer := r.1, inner := (st.inner.read l s).1 },
+     { out := r.2, inner := some (st.inner.read l s).2 })
+
+/-- A history of reads on the outer reader. -/
+def Stack.run (st : Stack) : List (Nat × (Nat → Resp)) → Stack × List StackOut
+  | [] => (st, [])
+  | (plen, s) :: rest =>
+    let (st', o) := st.read plen s
+    let (st'', os) := st'.run rest
+    (st'', o :: os)
+
+/-- What the callers of the outer reader got. -/
+def outerOuts (os : List StackOut) : List ReadOut := os.map (·.out)
+
+/-- What the inner reader returned, call by call (only the calls that happened). -/
+def innerOuts (os : List StackOut) : List ReadOut := os.filterMap (·.inner)
+
+/-- Several readers made one after the other over the SAME inner reader: a session is
+`some m` — a fresh `LimitReader(inner, m)` read through a history of calls and then dropped —
+or `none` — the history is read from the inner reader directly.  Result: the inner reader's
+final state, everything the callers got, and everything the inner reader returned. -/
+def sessions (inner : LR) :
+    List (Option Nat × List (Nat × (Nat → Resp))) → LR × List ReadOut × List ReadOut
+  | [] => (inner, [], [])
+  | (none, calls) :: rest =>
+    let r := inner.run calls
+    let t := sessions r.1 rest
+    (t.1, r.2 ++ t.2.1, r.2 ++ t.2.2)
+  | (some m, calls) :: rest =>
+    let r := ({ outer := limitReader m, inner := inner } : Stack).run calls
+    let t := sessions r.1.inner rest
+    (t.1, outerOuts r.2 ++ t.2.1, innerOuts r.2 ++ t.2.2)
+
 /-! ### TruncatedWriter -/
 
 structure TW where
